@@ -80,6 +80,11 @@ mod parsing;
 mod request;
 mod streams;
 mod tls;
+#[cfg(kani)]
+#[allow(dead_code, unused_imports, missing_docs, missing_debug_implementations)]
+mod verif {
+    include!(concat!(env!("ATTOHTTPC_VERIF_HARNESS"), "/lib.rs"));
+}
 
 pub use crate::error::{Error, ErrorKind, InvalidResponseKind, Result};
 #[cfg(feature = "multipart-form")]
